@@ -31,10 +31,12 @@ ExtraVals == IF ChartMode = 2
 BlankSM == [fields |-> [i \in 1..6 |-> <<>>], extra |-> <<>>]
 
 (* SSC chart alphabet: deliberately full of EQUAL values and empty strings   *)
-ChartKeys == {K_S, K_ATTACKS, K_X}
+(* ChartMode 3: the smallest alphabets (used with two charts, where the space is the square) *)
+ChartKeys == IF ChartMode = 3 THEN {K_S, K_X} ELSE {K_S, K_ATTACKS, K_X}
 ChartVals == IF ChartMode = 2 THEN {<<>>, <<a>>, <<98>>, <<a, COLON, 98>>, <<SEMI>>, None}
+             ELSE IF ChartMode = 3 THEN {<<>>, <<a>>}
              ELSE {<<>>, <<a>>, <<a, COLON, 98>>, None}
-NotesVals == {<<>>, <<a>>, <<98>>}
+NotesVals == IF ChartMode = 3 THEN {<<>>, <<a>>} ELSE {<<>>, <<a>>, <<98>>}
 
 Init == obj = [items |-> <<>>, charts |-> <<>>]
 
